@@ -53,6 +53,20 @@ def check_exists(facts, fn, expr_enum="Expression", op_enum="Operator"):
         p, arm = explicit["Operator"]
         binds = rx.pat_bindings(p)
         ob = rx.peel(arm["body"])
+        holds = None  # name of a function parameter standing for the recursive call (higher-order helper)
+        if ob["k"] == "mcall" and binds and len(ob["args"]) == 1:
+            # op.any_operand(Expression::action): a method of the operator type applying its argument to the operands
+            a0 = rx.peel(ob["args"][0])
+            base, chain = rx.method_chain(ob["recv"])
+            hk = "%s::%s" % (op_enum, ob["m"])
+            h = facts.fns.get(hk)
+            selfref = a0.get("k") == "path" and a0["segs"][-1] == name and (len(a0["segs"]) == 1 or a0["segs"][-2] in ("Self", expr_enum, "Exp"))
+            if h is not None and selfref and rx.is_var(base, binds[0]) and all(m in ("as_ref", "deref", "borrow") for m, _, _ in chain) and h.node.get("self") in ("&self", "self"):
+                hp = [n_ for n_, _ in h.params if n_ != "self"]
+                ht = rx.tail_expr(h.body)
+                if len(hp) == 1 and ht is not None and len(h.body["stmts"]) == 1 and ht["k"] == "match" and rx.is_var(ht["scrut"], "self"):
+                    holds = hp[0]
+                    ob = dict(ht, scrut={"k": "path", "segs": [binds[0]], "gen": [None], "l": ht.get("l")})
         if ob["k"] != "match" or not binds:
             problems.append("Operator arm is not a match on the operator")
         else:
@@ -92,8 +106,10 @@ def check_exists(facts, fn, expr_enum="Expression", op_enum="Operator"):
                     # every bound sub-expression is queried exactly once, results joined by || only
                     called = []
                     for b_ in bodies:
-                        if b_["k"] == "mcall" and b_["m"] == name and not b_["args"] and rx.var_name(b_["recv"]) is not None:
+                        if holds is None and b_["k"] == "mcall" and b_["m"] == name and not b_["args"] and rx.var_name(b_["recv"]) is not None:
                             called.append(rx.var_name(b_["recv"]))
+                        elif holds is not None and b_["k"] == "call" and rx.is_var(b_["f"], holds) and len(b_["args"]) == 1 and rx.var_name(b_["args"][0]) is not None:
+                            called.append(rx.var_name(b_["args"][0]))
                         else:
                             problems.append("%s: operand `%s` of the disjunction is not a recursive call" % (vn, src(b_)))
                     if sorted(called) != sorted(names):
